@@ -295,6 +295,12 @@ theorem uint8Bytes_len (v b : List Nat) (h : appendUint8Bytes v = some b) : b.le
   split at h <;> simp at h
   subst h; simp; omega
 
+/-- Offset of the packet number in a long header = bytes before the 2-byte Length field's value
+starts counting (`pnumOff` in `startProtectedLongHeaderPacket`). -/
+def longPnumOff (ptype : Nat) (dcid scid token : List Nat) : Nat :=
+  1 + 4 + 1 + dcid.length + 1 + scid.length +
+    (if ptype = 1 then (sizeVarint token.length).getD 0 + token.length else 0) + 2
+
 /-- **Long-header packets (Initial, 0-RTT, Handshake) round-trip**, AEAD and header protection
 abstract. Hypotheses: `open (seal x) = x`; the AEAD adds 16 bytes; the mask has 5 bytes; a
 non-zero 32-bit version; connection IDs of at most 20 bytes (longer ones are refused by the
@@ -310,6 +316,7 @@ theorem long_roundtrip (c : Crypto) (lim ptype version : Nat) (dcid scid token :
     (hdec : PacketNumber.decodePN recvMax ((pnum % 256 ^ pnLen pnum maxAcked : Nat)) (pnLen pnum maxAcked) = (pnum : Int))
     (h : writeLong c lim ptype version dcid scid token pnum maxAcked payload = PW.packet pkt) :
     ∃ out, Padded payload out ∧ pkt.length ≤ lim ∧
+      pkt.length ≤ longPnumOff ptype dcid scid token + 16383 ∧
       parseLong c (pkt ++ trailing) recvMax =
         some ({ ptype := ptype, version := version, num := pnum, dcid := dcid, scid := scid,
                 extra := (if ptype = 1 then token else []), payload := out }, pkt.length) := by
@@ -404,10 +411,18 @@ theorem long_roundtrip (c : Crypto) (lim ptype version : Nat) (dcid scid token :
   have hpl' : (xorBytes pn (m.drop 1)).length = pn.length := xorBytes_length _ _
   have hpktlen : pkt.length = 1 + mid.length + plen := by
     rw [hshape]; simp only [List.length_cons, List.length_append, hpl']; omega
-  refine ⟨padded, ⟨pay.length, padTo pay.length n, hk, hpayle.1, ?_, ?_⟩, ?_, ?_⟩
+  have hoffeq : pnumOff = longPnumOff ptype dcid scid token := by
+    unfold longPnumOff
+    rw [← hpoff, ← hextra]
+    by_cases h1 : ptype = 1
+    · simp only [h1, if_true] at htsz ⊢
+      rw [htsz]; rfl
+    · simp only [h1, if_false]
+  refine ⟨padded, ⟨pay.length, padTo pay.length n, hk, hpayle.1, ?_, ?_⟩, ?_, ?_, ?_⟩
   · simp only [padTo, aeadOverhead]; omega
   · rw [← hpd, ← hpay']; simp
   · omega
+  · rw [← hoffeq]; omega
   · -- parse
     have hfull : pkt ++ trailing = (b0 ^^^ (m.headD 0 &&& (if true = true then 15 else 31))) ::
         (u32be version ++ (d ++ (s ++ (t ++ ((64 + plen / 256 % 256) :: plen % 256 ::
